@@ -435,6 +435,68 @@ def endian_switch(ctx, n):
                                           case_detail(case, cfg=cd, data=inp, got=d, want=dm))
 
 
+def long_arrays(ctx, rng):
+    """Arrays of more entries than any internal block or format cache is likely to hold (just below, at and above 255,
+    256, 1024, 4096, 65535): every element of every packed / byte-sliced / float / wchar type is the standard decoding
+    of its own bytes, written back unchanged -- direct, counted by a field, and to the end of the stream."""
+    import struct as _st
+
+    codes = {"int8": "b", "uint8": "B", "int16": "h", "uint16": "H", "int32": "i", "uint32": "I", "int64": "q", "uint64": "Q",
+             "float": "f", "double": "d", "float16": "e"}
+    counts = [255, 256, 257, 1023, 1024, 1025, 1500, 2048, 4097, 5000] if not ctx.thorough else \
+        [255, 256, 257, 1023, 1024, 1025, 1500, 2047, 2048, 2049, 3000, 4096, 4097, 5000, 9000, 65535, 65537]
+    for endian in ("<", ">", "!"):
+        cs = lib.cstruct(endian=endian)
+        bo = "little" if endian == "<" else "big"
+        for name in list(codes) + ["int24", "uint48", "int128", "wchar"]:
+            for count in rng.sample(counts, 4 if not ctx.thorough else 8):
+                ctx.evaluation(("long-array", endian, name, count))
+                ctx.cell("long-arrays")
+                T = getattr(cs, name)
+                size = T.size
+                if name in codes and name not in ("float", "double", "float16"):
+                    vals = [rng.randrange(256 ** size) for _ in range(count)]
+                    raw = b"".join(v.to_bytes(size, bo) for v in vals)
+                    want = list(_st.unpack(("<" if endian == "<" else ">") + f"{count}{codes[name]}", raw))
+                elif name in codes:
+                    want = [float(rng.randrange(-1000, 1000)) / 4 for _ in range(count)]
+                    raw = _st.pack(("<" if endian == "<" else ">") + f"{count}{codes[name]}", *want)
+                elif name == "wchar":
+                    want = "".join(chr(rng.randrange(0x21, 0xD7FF)) for _ in range(count))
+                    raw = want.encode("utf-16-le" if endian == "<" else "utf-16-be")
+                else:
+                    signed = name.startswith("int")
+                    raw = bytes(rng.randrange(256) for _ in range(size * count))
+                    want = [int.from_bytes(raw[i * size:(i + 1) * size], bo, signed=signed) for i in range(count)]
+                det = {"type": name, "endian": endian, "count": count, "workload": "long-arrays"}
+                try:
+                    cs2 = cs
+                    got = {"direct": T[count](raw + b"\xEE"), "dumps": T[count](raw).dumps() == raw}
+                    defn = f"struct L_{name}_{count} {{ uint32 n; {name} a[n]; uint8 t; }};"
+                    cs2.load(defn + f"\nstruct E_{name}_{count} {{ {name} a[EOF]; }};", compiled=bool(count % 2))
+                    o = getattr(cs2, f"L_{name}_{count}")(count.to_bytes(4, bo) + raw + b"\x7f")
+                    got["counted"] = o.a
+                    got["tail"] = int(o.t) == 0x7F
+                    got["to-end"] = getattr(cs2, f"E_{name}_{count}")(raw).a
+                except Exception as e:  # noqa: BLE001
+                    ctx.violation("long-array", f"long-array-raises:{type(e).__name__}", dict(det, error=lib.exc_sig(e)))
+                    continue
+                bad = []
+                for k in ("direct", "counted", "to-end"):
+                    g = got[k] if name == "wchar" else [x for x in got[k]]
+                    if (str.__str__(g) if name == "wchar" else g) != want:
+                        first = next((i for i, (a_, b_) in enumerate(zip(g, want)) if a_ != b_), min(len(g), len(want)))
+                        bad.append((k, "first differing index", first, "lengths", len(g), len(want)))
+                if not got["dumps"]:
+                    bad.append(("dumps differs from the input",))
+                if not got["tail"]:
+                    bad.append(("member behind the array shifted",))
+                if bad:
+                    ctx.violation("long-array", "element-of-a-long-array-is-not-the-decoding-of-its-own-bytes", dict(det, failing=repr(bad)))
+                else:
+                    ctx.event("long_arrays_checked")
+
+
 def run(ctx):
     mon = CodecMonitor(ctx)
     mon.install()
@@ -445,6 +507,8 @@ def run(ctx):
             floats_chars(ctx, rng)
         leb128(ctx, rng)
         endian_switch(ctx, 10 if not ctx.thorough else 200)
+        if ctx.shard % 4 == 1:
+            long_arrays(ctx, ctx.rng("long-arrays", ctx.shard))
     finally:
         mon.uninstall()
     ctx.sample({"workloads": ["ints x aliases x endians", "floats/char/wchar", "leb128 exhaustive 1-2 byte + values",
